@@ -267,6 +267,85 @@ def check_conformance(tier):
                           "freerun_real_outcomes_outside_bounded_sets": sum(r["outside_bounded"] for r in res)}
 
 
+# --------------------------------------------------------------------------
+# (d) threads started by the bundled (thread-backed) progress observers
+# --------------------------------------------------------------------------
+
+
+class ObserverStartError(Exception):
+    pass
+
+
+class ObsThreadHarness(planh.PlanHarness):
+    """uberjob.run with real ConsoleProgressObserver members (their update thread runs on the shim threading
+    layer, fake clock) and optionally a member whose __enter__ raises.  Whatever happens, when run returns or
+    raises every thread it started must have exited (the explorer reports a leftover blocked thread as deadlock)."""
+
+    def __init__(self, cfg):
+        super().__init__(cfg)
+        import uberjob.progress._simple_progress_observer as spo
+
+        self.spo = spo
+        spo.threading = e1.shim_threading
+
+    def run_kwargs(self):
+        from uberjob.progress import Progress, ProgressObserver
+        from uberjob.progress._console_progress_observer import ConsoleProgressObserver
+
+        kw = super().run_kwargs()
+
+        class Quiet(ConsoleProgressObserver):
+            def _output(self_, value):
+                pass
+
+        class Failing(ProgressObserver):
+            def __enter__(self_):
+                raise ObserverStartError("cannot start")
+
+            def __exit__(self_, *a):
+                pass
+
+            def increment_total(self_, **k):
+                pass
+
+            increment_running = increment_completed = increment_failed = increment_total
+
+        members = []
+        for m in self.cfg["members"]:
+            if m == "console":
+                members.append(Progress(lambda: Quiet(initial_update_delay=1, min_update_interval=1, max_update_interval=5)))
+            else:
+                members.append(Progress(Failing))
+        kw["progress"] = members if len(members) > 1 else members[0]
+        return kw
+
+    def check(self, x):
+        s = x.sched
+        msgs = [(t, m) for t, m in self.check_common(x) if t == "C07"]
+        mr = s.main_result
+        if x.status == "ok" and "fail" in self.cfg["members"]:
+            if not (mr and mr[0] == "exc" and isinstance(mr[1], ObserverStartError)):
+                msgs.append(("C07", f"an observer failed to start but run gave {mr}"))
+            if any(e[0] == "start" for e in s.events):
+                msgs.append(("C07", "calls ran although an observer failed to start"))
+        return msgs, (x.status, mr and mr[0])
+
+
+def obs_thread_cfgs(tier):
+    out = []
+    for members in (["console"], ["console", "fail"], ["fail", "console"], ["console", "console", "fail"], ["console", "fail", "console"]):
+        for W in (1, 2):
+            for fail in (None, {"0": "exc"}, {"1": "base"}):
+                if fail and "fail" in members:
+                    continue
+                out.append({"n": 2, "edges": [(0, 1, "p")] if W == 1 else [], "output": [0, 1], "W": W, "sched": "default",
+                            "members": members, "fail": fail, "max_errors": 0})
+    return out
+
+
+OBS_FACTORY = "vlib.props.c07:ObsThreadHarness"
+
+
 def run(tier):
     import sys
 
@@ -282,7 +361,10 @@ def run(tier):
     extra.update(conf_cov)
     extra["litmus"] = lit_stats
     extra["litmus_executions"] = lit_exec
-    return e1prop.run(PROP, explorations(tier), extra_cov=extra, extra_viol=cyc_v + conf_v)
+    ex = explorations(tier)
+    ex.append(("bundled console observers (update thread on the shim layer) as members of progress=[...], one member may fail to start", OBS_FACTORY,
+               obs_thread_cfgs(tier), {"preempt": 1, "timer": 1, "yield": 1} if tier == "quick" else {"preempt": 2, "timer": 2, "yield": 2}))
+    return e1prop.run(PROP, ex, extra_cov=extra, extra_viol=cyc_v + conf_v)
 
 
 def replay(rep):
